@@ -91,6 +91,15 @@ def run(ctx, config='rel-all'):
     # ---- R10 the crate's own clients of the arena keep the allocation contract
     from . import clients
     clients.check(ctx, config, 'R10')
+    # ---- R11 the typed slice / value initialisers write exactly the extent they reserved (C02.R1 / R2 / R6): a fill that is not
+    # bounded by the reserved count writes into the neighbouring live block
+    from . import c02
+    c02.run(runner.Sub(ctx, 'R11', 'C02', only={'R1', 'R2', 'R6'}), config)
+    # ---- R12 the growing primitives of the arena Vec write only into capacity they reserved (the formula clauses of C13 for
+    # push / insert / extend_with / append / extend_from_slice_copy): one slot too many lands in the neighbouring live block
+    if config != 'rel-default':
+        from . import c13
+        c13.run(runner.Sub(ctx, 'R12', 'C13', only={'O2'}, match=c13.growing_clause), config)
 
 
 def check_finger_store(ctx, entry, I, res, e, fn, o, where, axioms, rules=None):
@@ -255,7 +264,30 @@ def check_ccf_stores(ctx, entry, I, res, rule='R7'):
         if not bf or bf[1] != 'current_chunk_footer':
             continue
         fn = arena.short(arena.innermost(e))
-        okv = any(a in subterms(e.val) for a in aggs) or (e.val[0] == 'addr' and prover.root_static(e.val[1]) == 'EMPTY_CHUNK')
+        # every value that can be stored (each alternative of a merged value), not just one of them
+        alts = []
+        for t, fs in arena.alternatives(I, e.val, set(e.state.facts)):
+            # the Some payload of "one generic iteration of the candidate search": each Some alternative inside
+            inner = t[2][2] if (t[0] == 'app' and t[1] in ('payload', 'vproj') and isinstance(t[2], tuple) and t[2][:2] == ('app', 'iter_any')) else None
+            if inner is not None:
+                def somes(x, depth=0):
+                    if depth > 8:
+                        return [x]
+                    if x[0] == 'phi':
+                        return [y for _, v in x[2] for y in somes(v, depth + 1)]
+                    if x[0] == 'agg' and x[2] == 'Some':
+                        return [field_of(x, '0')]
+                    if x[0] == 'agg' and x[2] == 'None':
+                        return []
+                    return [x]
+                alts.extend(somes(inner))
+            else:
+                alts.append(t)
+        fresh = lambda t: any(a in subterms(t) for a in aggs)
+        sentinel = lambda t: t[0] == 'addr' and prover.root_static(t[1]) == 'EMPTY_CHUNK'
+        # the sentinel may be installed only by a function that holds the arena exclusively and has given the chunks back
+        # (none does today); a shared-borrow allocation path that falls back to the sentinel orphans the whole chunk list
+        okv = bool(alts) and all(fresh(t) or (sentinel(t) and creator_or_exclusive(I, e)) for t in alts)
         if okv:
             ctx.ok(rule, '%s store(current_chunk_footer) via %s' % (fn, entry), 'stored value contains the address of the footer written by the acquirer in the same call')
         else:
